@@ -55,16 +55,28 @@ def measure(port):
 
 
 # ------------------------------------------------------------------ scenario language
-def H(sid, status, body, reqlen=0, incr=0, es=1, dep="-", padbad=0, contbad=0, cont=None):
-    """cont: number of CONTINUATION frames the header block is split into (None = at random)"""
+def H(sid, status, body, reqlen=0, incr=0, es=1, dep="-", padbad=0, contbad=0, cont=None, file=None, hpad=0):
+    """cont: number of CONTINUATION frames the header block is split into (None = at random);
+    file: the response body is a file (FILE_CHUNK; default: yes for 200, the static files of the e2e server);
+    hpad: octets of an extra response header field (in-process only: large response header block)"""
+    if file is None:
+        file = 1 if status == 200 else 0
     if not es and status != 400 and reqlen == 0:
         reqlen = -1            # no END_STREAM and no content-length: body length unknown
     if status == 400:
         reqlen = 0             # rejected request: body length forced to 0
         incr = 0               # (rejected at the first regular field -- missing :path -- or at "te": the
                                #  priority field behind it is discarded with the rest of the block)
-    t = "H:%d:r%d,%d,%d,%d:%d:%s:%d:%d" % (sid, status, body, reqlen, incr, es, dep, padbad, contbad)
+    t = "H:%d:r%d,%d,%d,%d,%d:%d:%s:%d:%d" % (sid, status, body, reqlen, incr, file, es, dep, padbad, contbad)
+    if hpad:
+        return t + ":%s:%d" % ("-" if cont is None else cont, hpad)
     return t if cont is None else t + ":%d" % cont
+
+
+def Z(prid, field, sid=0, ln=None):
+    """PRIORITY_UPDATE (RFC 9218): prioritized stream id + Priority field value"""
+    field = field.encode() if isinstance(field, str) else field
+    return "Z:%d:%d:%d:%s" % (sid, 4 + len(field) if ln is None else ln, prid, field.hex() or "-")
 
 
 def alphabet(l404, l400):
@@ -116,7 +128,8 @@ def gen(ctx, l404, l400, rng=None):
                     kind = rng.choice([(200, rng.choice(SIZES)), (404, l404), (400, l400)])
                     es = 1 if rng.random() < 0.7 else 0
                     reqlen = 0 if es else rng.choice([-1, -1, 3, 5])
-                    batch.append(H(nxt, kind[0], kind[1], reqlen=reqlen, incr=rng.randint(0, 1), es=es))
+                    batch.append(H(nxt, kind[0], kind[1], reqlen=reqlen, incr=rng.randint(0, 1), es=es,
+                                   file=rng.randint(0, 1) if kind[0] == 200 else 0))
                     opened.append(nxt); nxt += 2
                 elif r < 0.55 and opened:
                     batch.append("D:%d:%d:%s:%d" % (rng.choice(opened), rng.choice([0, 3, 5, 100]),
@@ -125,6 +138,13 @@ def gen(ctx, l404, l400, rng=None):
                     batch.append("W:%d:4:%d" % (rng.choice([0] + opened), rng.choice([1, 1000, 65535, 200000])))
                 elif r < 0.8 and opened:
                     batch.append("R:%d:4:8" % rng.choice(opened))
+                elif r < 0.84:
+                    batch.append("P:0:0:8:%016x" % rng.getrandbits(64))
+                elif r < 0.88 and opened:
+                    batch.append(Z(rng.choice(opened), rng.choice(["u=%d" % rng.randint(0, 7), "i", "u=1, i", "i=?0",
+                                                                     "u=5,i=?1", "", "u=9", "x, u=2", "u=2;a, i"])))
+                elif r < 0.9:
+                    batch.append("S:0:0:5=%d:0" % rng.choice([16384, 16385, 20000, 32768, 65536]))
                 else:
                     batch.append(rng.choice(A))
             evs += batch + ["q"]
@@ -168,6 +188,44 @@ def gen(ctx, l404, l400, rng=None):
     lines.append("h2 %s q D:1:3:-:0 D:1:100:-:1 D:1:5:2:0 P:0:0:8 W:3:4:100000 W:0:4:100000 q P:0:0:8 q" % act)
     lines.append("h2 %s q D:1:3:-:0 q D:1:5:-:0 W:3:4:100000 W:0:4:100000 q P:0:0:8 q" % act)
     lines.append("h2 %s q G:0:8:0 q D:1:3:-:0 W:3:4:100000 W:0:4:100000 P:0:0:8 q P:0:0:8 q" % act)
+    # outbound frame size: DATA and header blocks against the client's SETTINGS_MAX_FRAME_SIZE, raised and lowered
+    big = "W:0:4:2000000"
+    for f in (0, 1):
+        lines.append("h2 %s q %s q S:0:0:5=32768:0 %s q S:0:0:5=16384:0 %s q S:0:0:5=16777215:0 %s q" % (
+            big, H(1, 200, 100000, file=f), H(3, 200, 100000, file=f), H(5, 200, 100000, file=f), H(7, 200, 100000, file=f)))
+        lines.append("h2 %s S:0:0:5=20000,4=1000000:0 %s %s q W:1:4:1 q" % (
+            big, H(1, 200, 100000, file=f), H(3, 200, 100000, file=1 - f, incr=1)))
+    lines.append("h2 %s q %s q S:0:0:5=32768:0 %s q S:0:0:5=16384:0 %s q" % (
+        big, H(1, 200, 10, hpad=40000), H(3, 404, l404, hpad=40000), H(5, 200, 10, hpad=50000)))
+    lines.append("h2 %s q %s q" % (big, H(1, 200, 10, hpad=16380)))
+    # PING: the 8 octets come back
+    lines.append("h2 P:0:0:8:0001020304050607 P:0:0:8:ffffffffffffffff P:1:0:8:1111111111111111 q P:0:0:8:8000000000000000 q")
+    # PRIORITY_UPDATE (RFC 9218): reordering of blocked streams, and its three connection errors
+    blocked = " ".join([H(1, 200, 100000), "q", H(3, 200, 100000), H(5, 200, 100000), H(7, 200, 100000, incr=1), "q"])
+    for zs in ([Z(5, "u=1")], [Z(7, "u=2, i"), Z(3, "u=2")], [Z(5, "u=0, i"), Z(7, "u=7"), Z(3, "i=?1")],
+               [Z(3, "u=3"), Z(9, "u=1")], [Z(5, "u=9"), Z(7, "")], [Z(7, "i=?0"), Z(5, "x,u=2;q=1, i")]):
+        lines.append("h2 %s %s W:0:4:40000 q W:0:4:40000 q W:0:4:400000 q" % (blocked, " ".join(zs)))
+    lines.append("h2 %s q %s P:0:0:8 q" % (H(1, 200, 10), Z(1, "u=1", ln=3)))
+    lines.append("h2 %s q %s P:0:0:8 q" % (H(1, 200, 10), Z(1, "u=1", sid=1)))
+    lines.append("h2 %s q %s P:0:0:8 q" % (H(1, 200, 10), Z(0, "u=1")))
+    lines.append("h2 %s %s P:0:0:8 q" % (Z(1, "u=1"), H(1, 200, 10)))
+    # before the client has acknowledged the server's SETTINGS (it cannot know the concurrency limit yet)
+    nine = " ".join(H(1 + 2 * i, 200, 100000) for i in range(9))
+    lines.append("h2 noack %s q W:0:4:2000000 %s q S:1:0:-:0 q P:0:0:8 q" % (
+        nine, " ".join("W:%d:4:200000" % (1 + 2 * i) for i in range(9))))
+    lines.append("h2 noack %s q S:1:0:-:0 q" % " ".join(H(1 + 2 * i, 200, 10) for i in range(12)))
+    lines.append("h2 noack %s q S:1:0:-:0 %s q" % (" ".join(H(1 + 2 * i, 200, 3000, reqlen=-1, es=0) for i in range(10)),
+                                                  H(21, 200, 10)))
+    lines.append("h2 noack W:0:4:2000000 %s q P:0:0:8 q" % " ".join(H(1 + 2 * i, 200, 100000, incr=i % 2) for i in range(11)))
+    lines.append("h2 noack %s %s q P:0:0:8 q" % (" ".join(H(1 + 2 * i, 200, 100000) for i in range(8)), H(203, 200, 10)))
+    lines.append("h2 noack %s D:17:3:-:1 q S:1:0:-:0 S:1:0:-:0 q" % " ".join(
+        H(1 + 2 * i, 200, 100000, reqlen=-1, es=0) for i in range(9)))
+    for _ in range(6 if ctx.quick else 60):
+        base = rng.choice(lines[-400:])
+        if " noack " not in base and "B:" not in base:
+            toks = base.split(" ")[1:]
+            toks.insert(rng.randrange(len(toks) + 1), "S:1:0:-:0")
+            lines.append("h2 noack " + " ".join(toks))
     return lines
 
 
@@ -246,7 +304,12 @@ def build_frames(c, tok, rng, opened=None, inproc=False, table=None):
         pl += b"\0" * int(a[4])
         return e2e.h2_frame(4, int(a[1]), int(a[2]), pl)
     if k == "P":
-        return e2e.h2_frame(6, int(a[1]), int(a[2]), b"p" * int(a[3]))
+        return e2e.h2_frame(6, int(a[1]), int(a[2]), bytes.fromhex(a[4]) if len(a) > 4 else b"p" * int(a[3]))
+    if k == "Z":
+        fld = b"" if a[4] == "-" else bytes.fromhex(a[4])
+        pl = struct.pack(">I", int(a[3])) + fld
+        ln = int(a[2])
+        return e2e.h2_frame(16, 0, int(a[1]), (pl + b"\0" * 8)[:ln] if ln != len(pl) else pl)
     if k == "W":
         pl = struct.pack(">I", int(a[3]) & 0x7fffffff)
         ln = int(a[2])
@@ -273,7 +336,8 @@ def build_frames(c, tok, rng, opened=None, inproc=False, table=None):
         return e2e.h2_frame(0, fl, int(a[1]), pl)
     if k == "H":
         sid, kind, es, dep, padbad, contbad = int(a[1]), a[2], int(a[3]), a[4], int(a[5]), int(a[6])
-        ncont = int(a[7]) if len(a) > 7 else None
+        ncont = int(a[7]) if len(a) > 7 and a[7] != "-" else None
+        hpad = int(a[8]) if len(a) > 8 else 0
         if kind == "x":
             blk = b"\xff\xff\xff\xff\xff\xff\xff"
             if table is not None:
@@ -283,13 +347,14 @@ def build_frames(c, tok, rng, opened=None, inproc=False, table=None):
             if table is not None:
                 table[blk.hex()] = "r0,0,0,0"
         else:
-            status, body, reqlen, incr = [int(x) for x in kind[1:].split(",")]
+            status, body, reqlen, incr, isfile = ([int(x) for x in kind[1:].split(",")] + [0])[:5]
             method = "GET" if es else "POST"
             hs = [(":method", method), (":scheme", "http")]
+            pad = "/%d" % hpad if hpad else ""
             if status == 200:
-                hs.append((":path", "/r/200/%d" % body if inproc else "/f%d.bin" % body))
+                hs.append((":path", "/%s/200/%d%s" % ("f" if isfile else "r", body, pad) if inproc else "/f%d.bin" % body))
             elif status == 404:
-                hs.append((":path", "/r/404/%d" % body if inproc else "/nope"))
+                hs.append((":path", "/r/404/%d%s" % (body, pad) if inproc else "/nope"))
             # status 400: no :path, or (every other stream) a forbidden field in mid-block,
             # so that the rest of the block -- with a new dynamic-table entry -- is discarded
             elif (sid // 2) % 2 == 1:
@@ -357,7 +422,7 @@ def canon_frames(frames, hp):
                 ctl.append("SA")
         elif t == 6:
             if fl & 1:
-                ctl.append("PA")
+                ctl.append("PA" + pl[:8].hex())
         elif t == 7:
             ctl.append("G%d,%d" % (int.from_bytes(pl[:4], "big") & 0x7fffffff, int.from_bytes(pl[4:8], "big")))
         elif t == 3:
@@ -378,25 +443,27 @@ def canon_frames(frames, hp):
     return sorted(ctl), {k: (v["status"], v["data"], v["end"]) for k, v in sorted(streams.items())}
 
 
-def canon_model(step):
+def canon_model(step, frames=False):
+    """frames: keep the payload size of every DATA frame (in-process comparison) instead of the total"""
     ctl, streams = [], {}
     if step.strip() in ("-", ""):
         return [], {}
     for tok in step.split(" "):
         k = tok[0]
-        if tok in ("SA", "PA"):
+        if tok == "SA" or tok.startswith("PA"):
             ctl.append(tok)
         elif k in "GRW":
             ctl.append(tok)
         elif k == "H":
-            sid, status, es = [int(x) for x in tok[1:].split(",")]
-            d = streams.setdefault(sid, [None, 0, 0])
+            sid, status, es = [int(x) for x in tok[1:].split(":")[0].split(",")]
+            d = streams.setdefault(sid, [None, 0, 0, []])
             d[0] = status; d[2] |= es
         elif k == "D":
             sid, ln, es = [int(x) for x in tok[1:].split(",")]
-            d = streams.setdefault(sid, [None, 0, 0])
+            d = streams.setdefault(sid, [None, 0, 0, []])
             d[1] += ln; d[2] |= es
-    return sorted(ctl), {k: tuple(v) for k, v in sorted(streams.items())}
+            d[3].append(ln)
+    return sorted(ctl), {k: (tuple(v[:3]) + (tuple(v[3]),) if frames else tuple(v[:3])) for k, v in sorted(streams.items())}
 
 
 # ------------------------------------------------------------------ RFC 9113 monitor (oracle)
@@ -411,36 +478,48 @@ def monitor(sent_tokens_by_step, frames_by_step, raw=False):
     client_opened = set()
     hdr_seen, ended, rst_sent = set(), set(), set()
     goaway_err = False
-    n_settings = n_settings_ok = n_ping = 0
+    n_settings = n_ping = 0
     acks = pings = 0
-    max_frame = 16384
+    max_frame = 16384          # the client's SETTINGS_MAX_FRAME_SIZE in force for frames the server sends
+    pending_fs = []            # per SETTINGS frame not yet acknowledged: the value it sets (or None)
+    ping_payloads = []         # octets of the PINGs the client sent and that are not yet echoed
+    open_block = None          # stream whose header block is being continued
     last_goaway = None
-    preopen_rst = set()
+    max_sid = 0
     for toks, frames in zip(sent_tokens_by_step, frames_by_step):
         for t in toks:
             a = t.split(":")
-            if a[0] == "Y" and a[2] == "5" and a[1] == a[3] and int(a[1]) not in client_opened:
-                # (RFC 7540 5.3.1 leftover kept by lighttpd: RST_STREAM(PROTOCOL_ERROR) for a PRIORITY frame that
-                #  makes a still idle stream depend on itself; the stream is not open, opening it later is legal)
-                preopen_rst.add(int(a[1]))
             if a[0] == "H":
                 client_opened.add(int(a[1]))
-            if a[0] == "S" and a[1] == "0":
+                max_sid = max(max_sid, int(a[1]))
+            if a[0] == "S" and a[1] == "0" and a[2] == "0":
                 n_settings += 1
+                v = None
                 if a[3] != "-":
                     for kv in a[3].split(","):
                         if kv.startswith("5=") and 16384 <= int(kv[2:]) <= 16777215:
-                            max_frame = max(max_frame, int(kv[2:]))
-            if a[0] == "P" and a[1] == "0":
+                            v = int(kv[2:])
+                pending_fs.append(v)
+            if a[0] == "P" and a[1] == "0" and a[2] == "0" and a[3] == "8":
                 n_ping += 1
+                ping_payloads.append(bytes.fromhex(a[4]) if len(a) > 4 else b"p" * 8)
         for t, fl, sid, pl in frames:
             if len(pl) > max_frame:
-                return "frame of %d bytes exceeds the peer's SETTINGS_MAX_FRAME_SIZE" % len(pl)
+                return ("%s frame with %d payload octets exceeds the peer's SETTINGS_MAX_FRAME_SIZE"
+                        % (e2e.FT.get(t, t), len(pl)))
+            if open_block is not None and (t != 9 or sid != open_block):
+                return "frame of type %d inside the header block of stream %d" % (t, open_block)
             if t in (0, 1, 9):
                 if goaway_err:
                     return "stream frame (type %d, stream %d) sent after an error GOAWAY" % (t, sid)
                 if sid == 0 or sid % 2 == 0 or (sid not in client_opened and not raw):
                     return "%s on stream %d which the client never opened" % (e2e.FT[t], sid)
+                if t == 9:
+                    if open_block is None:
+                        return "CONTINUATION without a preceding HEADERS frame"
+                    if fl & 4:
+                        open_block = None
+                    continue
                 if sid in ended:
                     return "%s on stream %d after END_STREAM" % (e2e.FT[t], sid)
                 if sid in rst_sent:
@@ -448,7 +527,11 @@ def monitor(sent_tokens_by_step, frames_by_step, raw=False):
                 if t == 0 and sid not in hdr_seen:
                     return "DATA before HEADERS on stream %d" % sid
                 if t == 1:
+                    if sid in hdr_seen:
+                        return "second HEADERS block on stream %d" % sid
                     hdr_seen.add(sid)
+                    if not fl & 4:
+                        open_block = sid
                 if t in (0, 1) and fl & 1:
                     ended.add(sid)
             elif t == 3:
@@ -456,10 +539,9 @@ def monitor(sent_tokens_by_step, frames_by_step, raw=False):
                     return "RST_STREAM on stream 0"
                 if len(pl) != 4:
                     return "RST_STREAM of length %d" % len(pl)
-                if sid in preopen_rst and int.from_bytes(pl[:4], "big") == 1:
-                    preopen_rst.discard(sid)
-                else:
-                    rst_sent.add(sid)
+                if not raw and sid > max_sid:
+                    return "RST_STREAM on an idle stream (%d; RFC 9113 6.4)" % sid
+                rst_sent.add(sid)
             elif t == 4:
                 if sid != 0:
                     return "SETTINGS on stream %d" % sid
@@ -467,11 +549,20 @@ def monitor(sent_tokens_by_step, frames_by_step, raw=False):
                     acks += 1
                     if len(pl):
                         return "SETTINGS ACK with payload"
+                    if pending_fs:
+                        v = pending_fs.pop(0)
+                        if v is not None:
+                            max_frame = v
             elif t == 6:
                 if len(pl) != 8 or sid != 0:
                     return "malformed PING"
                 if fl & 1:
                     pings += 1
+                    if not raw:
+                        got = bytes(pl[:8])
+                        if got not in ping_payloads:
+                            return "PING ack carries %s, not the octets of a PING the client sent" % got.hex()
+                        ping_payloads.remove(got)
             elif t == 7:
                 if sid != 0 or len(pl) < 8:
                     return "malformed GOAWAY"
@@ -507,7 +598,8 @@ ADV_MAX_STREAMS = 8            # SETTINGS_MAX_CONCURRENT_STREAMS lighttpd advert
 
 
 class ClientView:
-    def __init__(self):
+    def __init__(self, noack=False):
+        self.acked = not noack     # the client has acknowledged the server's SETTINGS
         self.max_sid = 0
         self.st = {}               # streams the client opened: sid -> dict
         self.conn = set()          # GOAWAY error codes some client frame warrants
@@ -590,7 +682,9 @@ class ClientView:
                 self.conn.update((E_PROTOCOL, E_CLOSED))
                 return
             self.max_sid = sid
-            status, body, reqlen, incr = [int(x) for x in kind[1:].split(",")]
+            if not self.acked and sid > 200:
+                self.conn.add(E_CALM)              # (lighttpd: > 100 streams before the SETTINGS ack)
+            status, body, reqlen, incr = [int(x) for x in kind[1:].split(",")][:4]
             self.st[sid] = {"status": status, "body": body, "reqlen": reqlen, "c_end": bool(es), "c_rst": False,
                             "disturbed": False, "touched": False, "step": step, "recv": 0, "credit": self.init_win,
                             "after_goaway": self.client_goaway or self.graceful_last is not None}
@@ -683,8 +777,22 @@ class ClientView:
             elif sid == 0:
                 self.conn.add(E_PROTOCOL)
                 self._must(tok, "PRIORITY on stream 0")
-            elif dep == sid:
+            elif dep == sid and sid % 2 == 1 and sid <= self.max_sid:
+                # (RFC 7540 5.3.1 stream error, kept by lighttpd for streams that were opened; on an idle
+                #  stream RST_STREAM is forbidden, RFC 9113 6.4: nothing is warranted there)
                 self._serr(sid, E_PROTOCOL)
+            return
+        if k == "Z":
+            sid, ln, prid = int(a[1]), int(a[2]), int(a[3])
+            if ln < 4:
+                self.conn.add(E_FSIZE)
+                self._must(tok, "PRIORITY_UPDATE shorter than 4 octets")
+            elif sid != 0:
+                self.conn.add(E_PROTOCOL)
+                self._must(tok, "PRIORITY_UPDATE on a stream other than 0")
+            elif prid == 0:
+                self.conn.add(E_PROTOCOL)
+                self._must(tok, "PRIORITY_UPDATE for stream 0")
             return
         if k == "S":
             ack, sid, params, junk = int(a[1]), int(a[2]), a[3], int(a[4])
@@ -695,8 +803,10 @@ class ClientView:
                 if params != "-" or junk:
                     self.conn.add(E_FSIZE)
                     self._must(tok, "SETTINGS ack with a payload")
+                elif not self.acked:
+                    self.acked = True
                 else:
-                    self.conn.add(E_PROTOCOL)      # (acknowledges nothing: the client acked the server's SETTINGS at set-up)
+                    self.conn.add(E_PROTOCOL)      # (acknowledges nothing: the server's SETTINGS are acknowledged already)
             else:
                 if params != "-":
                     for kv in params.split(","):
@@ -822,8 +932,8 @@ class ClientView:
         return None
 
 
-def client_oracle(sent_steps, canon_steps, closed=None):
-    v = ClientView()
+def client_oracle(sent_steps, canon_steps, closed=None, noack=False):
+    v = ClientView(noack)
     seen_goaway = False
     for i, toks in enumerate(sent_steps):
         if v.err_goaway:
@@ -843,12 +953,25 @@ def client_oracle(sent_steps, canon_steps, closed=None):
     return None
 
 
+class NoAckConn(e2e.H2Conn):
+    """a client that does not acknowledge the server's SETTINGS by itself (the scenario does, with S:1:0:-:0)"""
+    ACK = e2e.h2_settings(ack=True)
+
+    def send(self, data):
+        if data == self.ACK and not getattr(self, "scenario_send", False):
+            return True
+        return e2e.H2Conn.send(self, data)
+
+
 def run_scenario(port, line, expect, seed):
     import random
     rng = random.Random(seed)
     toks = line.split(" ")[1:]
+    noack = bool(toks) and toks[0] == "noack"
+    if noack:
+        toks = toks[1:]
     try:
-        c = e2e.H2Conn(port)
+        c = NoAckConn(port) if noack else e2e.H2Conn(port)
     except OSError:
         return None, None, "connect-failed"
     obs, sent_steps, frame_steps = [], [], []
@@ -867,7 +990,9 @@ def run_scenario(port, line, expect, seed):
                 continue
             start = len(c.frames)
             if batch:
+                c.scenario_send = True
                 c.send(batch)
+                c.scenario_send = False
             exp = expect[qi] if qi < len(expect) else ([], {})
             qi += 1
 
@@ -920,7 +1045,7 @@ def run_scenario(port, line, expect, seed):
             canon.append(canon_frames(fr, hp))
     except Exception as ex:       # undecodable response header block
         return None, "response header block does not decode: %s" % ex, frame_steps
-    verdict = monitor(sent_steps, frame_steps) or client_oracle(sent_steps, canon, None if c.closed else False)
+    verdict = monitor(sent_steps, frame_steps) or client_oracle(sent_steps, canon, None if c.closed else False, noack)
     if not verdict and stalled:
         verdict = ("the connection stops making progress: it stays open, but a PING sent after the scenario is not "
                    "answered within 20 s")
